@@ -381,16 +381,17 @@ func mutate(v reflect.Value, path []string, val string) (ok bool) {
 			return false
 		}
 		a := v.Addr().Interface().(*codectypes.Any)
-		inner, _ := a.GetCachedValue().(proto.Message)
-		if inner == nil || strings.TrimPrefix(a.TypeUrl, "/") != strings.TrimPrefix(path[0], "@") {
+		name := strings.TrimPrefix(a.TypeUrl, "/")
+		if name != strings.TrimPrefix(path[0], "@") {
 			return false
 		}
-		bz, err := proto.Marshal(inner)
-		if err != nil {
+		// decode the packed value from its wire form (a cloned message has no cached value)
+		mt := proto.MessageType(name)
+		if mt == nil {
 			return false
 		}
-		c := reflect.New(reflect.TypeOf(inner).Elem()).Interface().(proto.Message)
-		if proto.Unmarshal(bz, c) != nil {
+		c := reflect.New(mt.Elem()).Interface().(proto.Message)
+		if proto.Unmarshal(a.Value, c) != nil {
 			return false
 		}
 		if !mutate(reflect.ValueOf(c), path[1:], val) {
